@@ -5,7 +5,7 @@ CONSTANTS of the specification, whose ASSUMEs state that slots and checksum are 
 one block.  TLC enumerates edge-value handles x slot indexes; the driver replays every case on the real code (codec
 round trip, and a real UpdateNoLocks into slot i of a full block followed by a byte comparison of all other slots,
 the area outside slots and checksum, and the checksum's validity); the trace specification judges every observation."""
-import json, os, re, sys
+import json, os, random, re, sys
 sys.path.insert(0, os.path.dirname(os.path.abspath(__file__)))
 import vlib
 import _registrymap as rm
@@ -85,8 +85,10 @@ def run(c):
 
     # 2. spec -> code: every case on the real codec / the real registry write path
     cf = os.path.join(c.scratch, "cases.json")
-    # codec cases first, then the writes slot by slot in TLC's order
-    json.dump([x for x in cases if x["kind"] == "codec"] + [x for x in cases if x["kind"] == "write"], open(cf, "w"))
+    # codec cases first, then the writes in seeded order
+    wcases = [x for x in cases if x["kind"] == "write"]
+    random.Random(c.seed).shuffle(wcases)      # the seed decides which record each write replaces
+    json.dump([x for x in cases if x["kind"] == "codec"] + wcases, open(cf, "w"))
     out = os.path.join(c.scratch, "layout.ndjson")
     c.run([binp, "layout", cf, out, c.datadir("layout")], env=env, timeout=c.pick(900, 3600))
     evs = [e for e in vlib.read_ndjson(out) if e["ev"] != "TraceStart"]
